@@ -3,6 +3,8 @@ import importlib
 import struct as pystruct
 
 import packs
+import random
+
 import translate
 from common import Driver, DriverFailure, hx
 
@@ -88,12 +90,12 @@ def impl_write(impl, tag, block, v):
     impl.acaptured.clear()
     try:
         impl.acc[tag].value = v
-        w1 = "w:%d:%d:%d" % impl.captured[-1]
+        w1 = "w:%d:%d:%d" % impl.captured[-1] if impl.captured else "nowrite"
     except Exception as e:  # noqa
         w1 = canon_err(e)
     try:
         run_coro(impl.aacc[tag].async_set_value(v))
-        w2 = "w:%d:%d:%d" % impl.acaptured[-1]
+        w2 = "w:%d:%d:%d" % impl.acaptured[-1] if impl.acaptured else "nowrite"
     except Exception as e:  # noqa
         w2 = canon_err(e)
     if not w1.startswith("w:"):
@@ -138,6 +140,36 @@ def values_for(it, rng, quick):
     if k == "time":
         return ["00:00", "7:5", "23:59", "255:255", f"{rng.randrange(256)}:{rng.randrange(256)}", "12"]
     return []
+
+
+def want_of(it, v):
+    if it["kind"] == "enum":
+        return v
+    if it["kind"] == "bool":
+        return v if isinstance(v, bool) else (v.lower() == "true")
+    if it["kind"] in ("byte", "word"):
+        return int(v)
+    return "%02d:%02d" % tuple(int(x) for x in v.split(":"))
+
+
+def in_domain_of(it, v):
+    try:
+        return (it["kind"] == "enum" and v in (it["labels"] or [])) or \
+            (it["kind"] == "bool" and (isinstance(v, bool) or v.lower() in ("true", "false"))) or \
+            (it["kind"] == "byte" and isinstance(v, (int, str)) and int(v) < 256) or \
+            (it["kind"] == "word" and int(v) < 65536) or \
+            (it["kind"] == "time" and v.count(":") == 1 and all(int(x) < 256 for x in v.split(":")))
+    except Exception:  # noqa
+        return False
+
+
+def raw_index(it, v):
+    """the integer the accessor merges into the field for value v (None when not a small integer)"""
+    if it["kind"] == "enum" and v in (it["labels"] or []):
+        return (it["labels"] or []).index(v)
+    if it["kind"] == "bool" and (isinstance(v, bool) or str(v).lower() in ("true", "false")):
+        return 1 if (v if isinstance(v, bool) else v.lower() == "true") else 0
+    return None
 
 
 def field_bits(it):
@@ -202,6 +234,21 @@ def run(ctx):
         tag = it["key"]
         others = [o for o in m["items"] if o["key"] != tag]
         bids = ["z", "o", "r"] if not ctx.quick else [rng.choice(["z", "o", "r"]), "r"]
+        # adversarial prior contents for bit-field items: the WHOLE 1/2-byte field equals the small integer about to be merged
+        # in (while the item's own bits say something else), and the complement of that
+        if it["bitpos"] is not None and it["kind"] in ("enum", "bool") and it["pos"] + it["len"] <= 1024 and it["rw"] is not None:
+            idxs = sorted({raw_index(it, v) for v in values_for(it, random.Random(1), ctx.quick)} - {None})
+            for ix in (idxs if not ctx.quick else idxs[:3]):
+                for word in (ix, ix ^ ((1 << (8 * it["len"])) - 1)):
+                    if 0 <= word < (1 << (8 * it["len"])):
+                        cb = bytearray(blocks["r"])
+                        cb[it["pos"]:it["pos"] + it["len"]] = word.to_bytes(it["len"], "big")
+                        cid = "c%d" % len(blocks)
+                        blocks[cid] = bytes(cb)
+                        lines.append(f"blk {cid} {blocks[cid].hex()}")
+                        impl_ans.append("ok")
+                        meta.append(None)
+                        bids.append(cid)
         for bid in dict.fromkeys(bids):
             blk = blocks[bid]
             impl.s.set_status_block(blk)
@@ -226,6 +273,16 @@ def run(ctx):
                     if ans.startswith("err:E_NOTWRITABLE") != (it["rw"] is None):
                         ctx.violation(f"rw:{f}:{tag}", {"module": f, "tag": tag, "value": repr(v)},
                                       "refuses exactly when not writable", ans)
+                    if "nowrite" in ans.split(" ")[:2] and it["rw"] is not None and in_domain_of(it, v) and (f, tag) not in illformed:
+                        # no device write at all: the item must at least already read the requested value
+                        impl.s.set_status_block(blk)
+                        try:
+                            got = impl.acc[tag].value
+                        except Exception as e:  # noqa
+                            got = f"raised {type(e).__name__}"
+                        if got != want_of(it, v):
+                            ctx.violation(f"readback:{f}:{tag}", {"module": f, "tag": tag, "block": bid, "block_hex": (blk.hex() if bid[0] == "c" else None),
+                                                                 "value": repr(v)}, want_of(it, v), f"no device write emitted; item still reads {got!r}")
                     continue
                 if (f, tag) in illformed:
                     # known-ill-formed items are reported through their own finding keys only
@@ -234,13 +291,13 @@ def run(ctx):
                     wfbad = False
                 w1, w2 = ans.split(" ")[0], ans.split(" ")[1]
                 if w1 != w2:
-                    ctx.violation(f"paths:{f}:{tag}", {"module": f, "tag": tag, "block": bid, "value": repr(v)},
+                    ctx.violation(f"paths:{f}:{tag}", {"module": f, "tag": tag, "block": bid, "block_hex": (blk.hex() if bid[0] == "c" else None), "value": repr(v)},
                                   "blocking and awaitable paths emit the same write", [w1, w2])
                 changed = {(i, j) for i in range(1024) if nb[i] != blk[i] for j in range(8) if (nb[i] ^ blk[i]) >> j & 1}
                 own = field_bits(it)
                 if not changed <= own:
                     ctx.violation(f"frame:{f}:{tag}" if not wfbad else f"illformed-frame:{f}:{tag}",
-                                  {"module": f, "tag": tag, "block": bid, "value": repr(v)},
+                                  {"module": f, "tag": tag, "block": bid, "block_hex": (blk.hex() if bid[0] == "c" else None), "value": repr(v)},
                                   "only bits of the item's own field change", sorted(changed - own)[:8])
                 in_domain = (it["kind"] == "enum" and v in (it["labels"] or [])) or \
                     (it["kind"] == "bool") or (it["kind"] == "byte" and isinstance(v, (int, str)) and int(v) < 256) or \
@@ -261,7 +318,7 @@ def run(ctx):
                         want = "%02d:%02d" % tuple(int(x) for x in v.split(":"))
                     if got != want:
                         ctx.violation(f"readback:{f}:{tag}" if not wfbad else f"illformed-readback:{f}:{tag}",
-                                      {"module": f, "tag": tag, "block": bid, "value": repr(v)}, want, got)
+                                      {"module": f, "tag": tag, "block": bid, "block_hex": (blk.hex() if bid[0] == "c" else None), "value": repr(v)}, want, got)
                     if changed:
                         nontrivial.add((shape(it), bid, repr(v) if it["kind"] != "enum" else (it["labels"] or []).index(v)))
                     # no other item changes (items whose own field is disjoint)
@@ -273,7 +330,7 @@ def run(ctx):
                         a0 = oa.raw_value
                         impl.s.set_status_block(nb)
                         if oa.raw_value != a0:
-                            ctx.violation(f"other:{f}:{tag}:{o['key']}", {"module": f, "tag": tag, "other": o["key"], "block": bid, "value": repr(v)},
+                            ctx.violation(f"other:{f}:{tag}:{o['key']}", {"module": f, "tag": tag, "other": o["key"], "block": bid, "block_hex": (blk.hex() if bid[0] == "c" else None), "value": repr(v)},
                                           "items with a disjoint field keep their value", [a0, oa.raw_value])
                             break
     # ---------- correspondence: the Lean model must predict every answer ----------
@@ -312,9 +369,14 @@ def replay(inp):
     impl = Impl(inp["module"])
     it = [i for m in packs.load_tables() if m["file"] == inp["module"] for i in m["items"] if i["key"] == inp["tag"]][0]
     blk = {"z": bytes(1024), "o": b"\xff" * 1024}.get(inp.get("block"), bytes(1024))
+    if inp.get("block_hex"):
+        blk = bytes.fromhex(inp["block_hex"])
     v = eval(inp["value"])
     ans, nb = impl_write(impl, inp["tag"], blk, v)
     if nb is None:
+        if "nowrite" in ans.split(" ")[:2] and in_domain_of(it, v):
+            impl.s.set_status_block(blk)
+            return impl.acc[inp["tag"]].value != want_of(it, v), {"answer": ans, "item_reads": impl.acc[inp["tag"]].value}
         return True, ans
     changed = {(i, j) for i in range(1024) if nb[i] != blk[i] for j in range(8) if (nb[i] ^ blk[i]) >> j & 1}
     impl.s.set_status_block(nb)
